@@ -51,9 +51,11 @@ ConnOpOk(h, e) ==
   /\ IF e.err.k \in {"OpeningNotConnected"} THEN e.op \in {"open_uni", "open_bi"}
      ELSE ErrAllowed(h, e.err)
 
+\* stream calls after the end: reading may still drain what had arrived (then end-of-stream or the error);
+\* writing, finishing and waiting for a stop never report success any more - however often they are made
 StreamOpOk(e) ==
   CASE e.op = "read" -> e.end.k \in {"fin", "err"} /\ (e.end.k = "err" => e.end.err.k \in {"NotConnected", "Reset"})
-    [] OTHER -> e.res.k \in {"ok", "err"} /\ (e.res.k = "err" => e.res.err.k \in {"NotConnected", "Stopped", "Closed"})
+    [] OTHER -> e.res.k = "err" /\ e.res.err.k \in {"NotConnected", "Stopped", "Closed"}
 
 \* what the raw peer must see
 PeerSees(h) ==
